@@ -210,6 +210,10 @@ def r7_cursor_loops(text):
         return mk(m.group(1), m.group(2), m.group(3), m.group(4), 'iter', deref_pat=True, cursor=m.group(2) + '_nx')
     text = re.sub(r'(?m)^(\s*)for \((\w+), &(\w+)\) in ([\w\.]+)\.iter\(\)\.enumerate\(\) \{', repl_enum_deref, text)
 
+    def repl_copy(m):
+        return mk(m.group(1), None, m.group(2), m.group(3), 'iter', deref_pat=True)
+    text = re.sub(r'(?m)^(\s*)for &(\w+) in ([\w\.]+)\.iter\(\) \{', repl_copy, text)
+
     def repl_plain(m):
         return mk(m.group(1), None, m.group(2), m.group(3), m.group(4))
     text = re.sub(r'(?m)^(\s*)for (\w+) in ([\w\.]+)\.(iter|iter_mut)\(\) \{', repl_plain, text)
